@@ -306,6 +306,7 @@ type vPos struct {
 	Quoted bool
 	// for mapping entries
 	IsMapping bool
+	Flow      bool    // mappings: written in flow style
 	KeyLine   int     // for a key/mapping: line of the key that introduces it (0 for the root)
 	EndLine   int     // last line of the subtree introduced by this key (keys only)
 	Indent    int     // column of the keys of this mapping (mappings only)
@@ -432,7 +433,7 @@ func vBuildCatalogueMode(seed, src string, lenient bool) (*vCatalogue, error) {
 			}
 			return end, nil
 		case yaml.MappingNode:
-			m := &vPos{Seed: seed, Path: path, NPath: vNormalize(vGeneric(segs)), Line: n.Line, Col: n.Column, IsMapping: true, KeyLine: keyLine, Indent: n.Column, Parent: parent}
+			m := &vPos{Seed: seed, Path: path, NPath: vNormalize(vGeneric(segs)), Line: n.Line, Col: n.Column, IsMapping: true, Flow: n.Style&yaml.FlowStyle != 0, KeyLine: keyLine, Indent: n.Column, Parent: parent}
 			c.Mappings = append(c.Mappings, m)
 			end := n.Line
 			for i := 0; i+1 < len(n.Content); i += 2 {
